@@ -37,10 +37,12 @@ NOTE_COMMON = 'trusted: gcc-12 ASan/UBSan/TSan runtimes, valgrind, glibc, cfitsi
 PROPS['C01'] = dict(
     level_text='Stratified random exploration: every evaluation entry point is compared with an independent long-double Cox-de Boor reference under ASan/UBSan and in the -O3 production build, on tables/points that force every structural class (margins, knots, neighbours, minimum knot counts, orders 0-5, 1-9 dims). Right level because the property quantifies over a continuous input space: what matters is that each structural class occurs many times with a tolerance tight enough to expose an off-by-one interval, stride or margin shift (errors O(M)) and loose enough never to alarm on rounding.',
     level_note=NOTE_COMMON,
-    technique='runtime monitor: independent long-double reference oracle + ASan/UBSan',
-    targets=[T('h_eval.cpp', 'asan'), T('h_eval.cpp', 'prod')],
+    technique='runtime monitor: independent long-double reference oracle + ASan/UBSan; history-independence differential (table with a random history vs. a fresh load of its observable content, evaluation compared bit for bit)',
+    targets=[T('h_eval.cpp', 'asan'), T('h_eval.cpp', 'prod'), T('h_misc.cpp', 'asan')],
     passes=lambda tier, sc: [Pass('asan', 'h_eval.asan', 'C01', n(tier, 480, 2400, sc)),
-                             Pass('prod', 'h_eval.prod', 'C01', n(tier, 480, 2400, sc))],
+                             Pass('prod', 'h_eval.prod', 'C01', n(tier, 480, 2400, sc)),
+                             # evaluation of a table with a history (evaluated, convolved, permuted, re-read, moved ...) = evaluation of a fresh load of its observable content, bit for bit
+                             Pass('hist', 'h_misc.asan', 'C01hist', n(tier, 800, 8000, sc), stall_s=300)],
     level='exploration',
     rule='case = random well-formed table (1-9 dims, orders 0-5, knot strata uniform/irregular/wide-ratio/repeated/clamped, '
          'minimum knot counts forced) x 60-600 points drawn from knot / knot+-ulp / margins / top-of-support / last-knot / interior classes; '
@@ -48,7 +50,7 @@ PROPS['C01'] = dict(
          'distinct_nontrivial counts distinct (table,point) pairs with successful lookup and magnitude M>0',
     assumptions=ASSUME_COMMON + ['tolerance = (3*sum(order+2)+block+8)*u*M + block*(ndim+2)*max|c|*eta (running-error bound + gradual-underflow floor)',
                                  'block size capped (4096 quick / 32768 thorough) where the reference is computed'],
-    require={'any': {'points-checked': 1000, 'points-in-margin': 100, 'points-on-knot': 100, 'dims-with-minimum-knots': 10}},
+    require={'any': {'points-checked': 1000, 'points-in-margin': 100, 'points-on-knot': 100, 'dims-with-minimum-knots': 10, 'hist:judged-evaluation-sets': 500}},
 )
 PROPS['C02'] = dict(
     level_text='Same exploration as C01 for derivatives: every bitmask (all subsets up to 4 dims), every gradient lane in both precisions and ndsplineeval_deriv with orders 0..order+1 are compared with the exact derivative of the reference on the same polynomial piece; derivatives above the order must be exactly zero.',
@@ -291,12 +293,14 @@ PROPS['C10'] = dict(
     technique='runtime monitor: order/derivative invariants on returned tables + differential check against the unconstrained fit, under ASan/UBSan',
     targets=[T('h_fit.cpp', 'prod'), T('h_fit.cpp', 'asan')],
     passes=lambda tier, sc: [Pass('prod', 'h_fit.prod', 'C10', n(tier, 600, 3000, sc), stall_s=300, env={'OMP_NUM_THREADS': '3'}),
-                             Pass('asan', 'h_fit.asan', 'C10', n(tier, 60, 500, sc), stall_s=600, env={'OMP_NUM_THREADS': '2'})],
+                             Pass('asan', 'h_fit.asan', 'C10', n(tier, 60, 500, sc), stall_s=600, env={'OMP_NUM_THREADS': '2'}),
+                             # tables of 1300-4500 coefficients on data with shallow dips: solver tolerances that grow with the system size
+                             Pass('large', 'h_fit.prod', 'C10big', n(tier, 6, 40, sc), chunk=1, stall_s=900, env={'OMP_NUM_THREADS': '3'})],
     level='exploration',
     rule='case = (random problem of 1-3 dims with orders 1-4, monotonic dimension, data kind in {noisy increasing, decreasing, oscillating, constant, gaussian noise, '
          'from-monotone-spline}); distinct_nontrivial counts distinct (problem, monodim) monotonic fits',
     assumptions=ASSUME_COMMON,
-    require={'any': {'monotonic-fits': 150, 'fits-that-reached-the-parallel-line-search': 5, 'inactive-constraint-comparisons': 5, 'derivative-points-checked': 3000}},
+    require={'any': {'monotonic-fits': 150, 'fits-that-reached-the-parallel-line-search': 5, 'inactive-constraint-comparisons': 5, 'derivative-points-checked': 3000, 'large-monotonic-fits': 5}},
 )
 PROPS['C13'] = dict(
     level_text='Fault injection on the argument tuple: valid 1-3-d problems get one or two corruptions from the cross product in the property (counts off by one or empty, index outside its range, '
